@@ -678,7 +678,7 @@ def run(ctx):
         if q:
             plan = [(('ss', 'float'), 'mid', 2), (('v', 'int'), 'small', 3)]
         else:
-            plan = [(('ss', 'float'), 'large', 3), (('v', 'int'), 'mid', 3), (('ss', 'int'), 'small', 4),
+            plan = [(('ss', 'float'), 'large', 2), (('v', 'int'), 'mid', 3), (('ss', 'int'), 'small', 4),
                     (('v', 'float'), 'small', 4), (('sv', 'float'), 'small', 3), (('cs', 'float'), 'small', 3)]
         nstates = {}
         for conf, fam, depth in plan:
